@@ -121,23 +121,17 @@ Proof.
     apply Hle. apply in_map. unfold sdists. apply (in_map (fun q => dot (vsub q pp) pn)). exact Hp.
 Qed.
 
-(** ** the band exclusion, in the model's own quantities: when the extreme points are strictly on
-    opposite sides, the direction cosine [l] that [_line_segment_to_plane] tests against the
-    hard-wired 1e-6 is outside the band *)
-Definition points_band_ok (pp pn : V3R) (pts : list V3R) : Prop :=
-  let ts := map (fun q => dot (vsub q pp) pn) pts in
-  let s := nth (argmin ts) pts vzero in
-  let e := nth (argmax ts) pts vzero in
-  nth (argmin ts) ts 0 * nth (argmax ts) ts 0 < 0 ->
-  let l := dot (fst (convert_segment_to_line s e)) pn in l = 0 \/ eps6 (O:=ROps) <= l * l.
-
-(** what the model returns, arm by arm, with no assumption on the band *)
+(** what the model returns, arm by arm.  Arm 0 (/repo e4c9460): the point interpolated on the segment
+    between the two extreme points, at the parameter where the signed distance vanishes. *)
 Lemma plane_to_points_arms (pp pn : V3R) (pts : list V3R) d c1 c2 arm :
   pts <> [] ->
   plane_to_points pp pn pts = (d, c1, c2, arm) ->
   let f := fun q => dot (vsub q pp) pn in
-  (arm = 0%nat /\ sd_min pp pn pts < 0 < sd_max pp pn pts /\
-   line_segment_to_plane (pt_min pp pn pts) (pt_max pp pn pts) pp pn eps6 = (d, c1, c2)) \/
+  (arm = 0%nat /\ sd_min pp pn pts < 0 < sd_max pp pn pts /\ d = 0 /\
+   c1 = vadd (pt_min pp pn pts)
+             (vscale (sd_min pp pn pts / (sd_min pp pn pts - sd_max pp pn pts))
+                     (vsub (pt_max pp pn pts) (pt_min pp pn pts))) /\
+   c2 = c1) \/
   (arm = 1%nat /\ 0 <= sd_min pp pn pts * sd_max pp pn pts /\
    exists p, In p pts /\ d = Rabs (f p) /\ c1 = vsub p (vscale (f p) pn) /\ c2 = p /\
              forall q, In q pts -> d <= Rabs (f q)).
@@ -149,10 +143,9 @@ Proof.
   destruct (sd_max_spec pp pn pts Hne) as (Imax & Emax & _).
   pose proof (Hmin _ Imax) as Hmm. rewrite <- Emax in Hmm.
   destruct (Rltb (sd_min pp pn pts * sd_max pp pn pts) 0) eqn:E; rb_hyp E.
-  - destruct (line_segment_to_plane (pt_min pp pn pts) (pt_max pp pn pts) pp pn eps6) as [[d' c1'] c2'] eqn:Hls.
-    intros H. apply pair_equal_spec in H. destruct H as [H <-].
+  - intros H. apply pair_equal_spec in H. destruct H as [H <-].
     apply pair3_eq in H. destruct H as (<- & <- & <-). left.
-    split; [reflexivity|]. split; [split; nra|reflexivity].
+    split; [reflexivity|]. split; [split; nra|]. split; [reflexivity|]. split; reflexivity.
   - destruct (sd_abs_spec pp pn pts Hne) as (Ic & Ec & Hc). cbv zeta in Ic, Ec, Hc.
     intros H. apply pair_equal_spec in H. destruct H as [H <-].
     apply pair3_eq in H. destruct H as (<- & <- & <-). right.
@@ -160,40 +153,6 @@ Proof.
     exists (nth (argmin (map Rabs (sdists pp pn pts))) pts vzero).
     split; [exact Ic|]. rewrite Ec. split; [reflexivity|]. split; [reflexivity|]. split; [reflexivity|].
     intros q Hq. rewrite <- Ec. apply Hc. exact Hq.
-Qed.
-
-Lemma points_band_ok_unfold (pp pn : V3R) (pts : list V3R) :
-  points_band_ok pp pn pts ->
-  sd_min pp pn pts * sd_max pp pn pts < 0 ->
-  let l := dot (fst (convert_segment_to_line (pt_min pp pn pts) (pt_max pp pn pts))) pn in
-  l = 0 \/ eps6 (O:=ROps) <= l * l.
-Proof. intros H. exact H. Qed.
-
-(** outside the band the opposite-sides arm finds a common point on the segment between the two
-    extreme points; otherwise the closest vertex and its projection are returned *)
-Lemma plane_to_points_cases (pp pn : V3R) (pts : list V3R) d c1 c2 arm :
-  dot pn pn = 1 -> pts <> [] -> points_band_ok pp pn pts ->
-  plane_to_points pp pn pts = (d, c1, c2, arm) ->
-  let f := fun q => dot (vsub q pp) pn in
-  (arm = 0%nat /\ d = 0 /\ c1 = c2 /\ plane_set pp pn c1 /\
-   exists p q, In p pts /\ In q pts /\ segment_set p q c1) \/
-  (arm = 1%nat /\ 0 <= sd_min pp pn pts * sd_max pp pn pts /\
-   exists p, In p pts /\ d = Rabs (f p) /\ c1 = vsub p (vscale (f p) pn) /\ c2 = p /\
-             forall q, In q pts -> d <= Rabs (f q)).
-Proof.
-  intros Hu Hne Hband H.
-  destruct (plane_to_points_arms pp pn pts d c1 c2 arm Hne H) as [(Harm & Hside & Hls)|R];
-    [left|right; exact R].
-  destruct (sd_min_spec pp pn pts Hne) as (Imin & Emin & _).
-  destruct (sd_max_spec pp pn pts Hne) as (Imax & Emax & _).
-  assert (Hlt : sd_min pp pn pts * sd_max pp pn pts < 0) by nra.
-  pose proof (points_band_ok_unfold pp pn pts Hband Hlt) as Hb.
-  rewrite Emin, Emax in Hside.
-  assert (Hd0 : d = 0) by (eapply line_segment_to_plane_crossing; eauto using eps6_pos).
-  pose proof (line_segment_to_plane_feasible _ _ pp pn _ _ _ _ Hu eps6_pos Hls) as Hf.
-  destruct (feasible_zero_common _ _ _ _ _ Hf Hd0) as (Hc & Hseg & Hpl).
-  split; [exact Harm|]. split; [exact Hd0|]. split; [exact Hc|]. split; [exact Hpl|].
-  exists (pt_min pp pn pts), (pt_max pp pn pts). auto.
 Qed.
 
 (** the two arms separately, selected by the model's own test [ts[imin] * ts[imax] < 0] *)
@@ -210,23 +169,45 @@ Proof.
   split; [exact Harm|exact R].
 Qed.
 
+(** the opposite-sides arm is correct for ALL inputs: [tmin < 0 < tmax] gives a parameter in (0,1), so the
+    returned point is on the segment between the two extreme points, and its signed distance is
+    [tmin + t (tmax - tmin) = 0].  Neither a unit normal nor a band exclusion is needed. *)
 Lemma plane_to_points_arm0 (pp pn : V3R) (pts : list V3R) d c1 c2 arm :
-  dot pn pn = 1 -> pts <> [] -> points_band_ok pp pn pts ->
+  pts <> [] ->
   sd_min pp pn pts * sd_max pp pn pts < 0 ->
   plane_to_points pp pn pts = (d, c1, c2, arm) ->
   arm = 0%nat /\ d = 0 /\ c1 = c2 /\ plane_set pp pn c1 /\
   In (pt_min pp pn pts) pts /\ In (pt_max pp pn pts) pts /\
   segment_set (pt_min pp pn pts) (pt_max pp pn pts) c1.
 Proof.
-  intros Hu Hne Hband Hlt H.
-  destruct (plane_to_points_arms pp pn pts d c1 c2 arm Hne H) as [(Harm & Hside & Hls)|(_ & Hge & _)]; [|lra].
+  intros Hne Hlt H.
+  destruct (plane_to_points_arms pp pn pts d c1 c2 arm Hne H)
+    as [(Harm & Hside & Hd & Hc1 & Hc2)|(_ & Hge & _)]; [|lra].
   destruct (sd_min_spec pp pn pts Hne) as (Imin & Emin & _).
   destruct (sd_max_spec pp pn pts Hne) as (Imax & Emax & _).
-  pose proof (points_band_ok_unfold pp pn pts Hband Hlt) as Hb.
-  rewrite Emin, Emax in Hside.
-  assert (Hd0 : d = 0) by (eapply line_segment_to_plane_crossing; eauto using eps6_pos).
-  pose proof (line_segment_to_plane_feasible _ _ pp pn _ _ _ _ Hu eps6_pos Hls) as Hf.
-  destruct (feasible_zero_common _ _ _ _ _ Hf Hd0) as (Hc & Hseg & Hpl). auto 10.
+  destruct (crossing_interp pp pn _ _ _ _ Emin Emax Hside) as [Hseg Hpl].
+  rewrite <- Hc1 in Hseg, Hpl. symmetry in Hc2. auto 10.
+Qed.
+
+(** either a common point on the segment between the two extreme points, or the closest vertex and
+    its projection *)
+Lemma plane_to_points_cases (pp pn : V3R) (pts : list V3R) d c1 c2 arm :
+  pts <> [] ->
+  plane_to_points pp pn pts = (d, c1, c2, arm) ->
+  let f := fun q => dot (vsub q pp) pn in
+  (arm = 0%nat /\ d = 0 /\ c1 = c2 /\ plane_set pp pn c1 /\
+   exists p q, In p pts /\ In q pts /\ segment_set p q c1) \/
+  (arm = 1%nat /\ 0 <= sd_min pp pn pts * sd_max pp pn pts /\
+   exists p, In p pts /\ d = Rabs (f p) /\ c1 = vsub p (vscale (f p) pn) /\ c2 = p /\
+             forall q, In q pts -> d <= Rabs (f q)).
+Proof.
+  intros Hne H.
+  destruct (plane_to_points_arms pp pn pts d c1 c2 arm Hne H) as [(_ & Hside & _)|R];
+    [left|right; exact R].
+  assert (Hlt : sd_min pp pn pts * sd_max pp pn pts < 0) by nra.
+  destruct (plane_to_points_arm0 pp pn pts d c1 c2 arm Hne Hlt H) as (Harm & Hd & Hc & Hpl & Imin & Imax & Hseg).
+  split; [exact Harm|]. split; [exact Hd|]. split; [exact Hc|]. split; [exact Hpl|].
+  exists (pt_min pp pn pts), (pt_max pp pn pts). auto.
 Qed.
 
 (** a vertex and its orthogonal projection onto the plane *)
@@ -244,19 +225,17 @@ Proof.
 Qed.
 
 (** *** C10 for an arbitrary non-empty point list and ANY set [S] that contains the points and the
-    segments between them ([_plane_to_convex_hull_points] has no epsilon argument: 1e-6 is
-    hard-wired, hence [_partial]; inside the band the statement is false, see
-    [plane_to_triangle_feasible_refuted] in DistPlane.v and the refutations below) *)
-Theorem plane_to_points_feasible_partial (S : set3) (pp pn : V3R) (pts : list V3R) d c1 c2 arm :
+    segments between them (no band hypothesis: since /repo e4c9460 the opposite-sides arm interpolates
+    the crossing point itself) *)
+Theorem plane_to_points_feasible (S : set3) (pp pn : V3R) (pts : list V3R) d c1 c2 arm :
   dot pn pn = 1 -> pts <> [] ->
   (forall p, In p pts -> S p) ->
   (forall p q, In p pts -> In q pts -> forall x, segment_set p q x -> S x) ->
-  points_band_ok pp pn pts ->
   plane_to_points pp pn pts = (d, c1, c2, arm) ->
   feasible (plane_set pp pn) S d c1 c2.
 Proof.
-  intros Hu Hne Hin Hseg Hband H.
-  destruct (plane_to_points_cases pp pn pts d c1 c2 arm Hu Hne Hband H)
+  intros Hu Hne Hin Hseg H.
+  destruct (plane_to_points_cases pp pn pts d c1 c2 arm Hne H)
     as [(_ & -> & <- & Hp & p & q & Ip & Iq & Hx)|(_ & _ & p & Ip & -> & -> & -> & _)].
   - apply feasible_common; [exact Hp|]. exact (Hseg p q Ip Iq c1 Hx).
   - apply vertex_projection_feasible; auto.
@@ -264,15 +243,14 @@ Qed.
 
 (** *** C11 for ANY set [S] whose signed distances stay between the extreme signed distances of the
     points (true of the convex hull of the points) *)
-Theorem plane_to_points_optimal_partial (S : set3) (pp pn : V3R) (pts : list V3R) d c1 c2 arm :
+Theorem plane_to_points_optimal (S : set3) (pp pn : V3R) (pts : list V3R) d c1 c2 arm :
   dot pn pn = 1 -> pts <> [] ->
   (forall x, S x -> sd_min pp pn pts <= dot (vsub x pp) pn <= sd_max pp pn pts) ->
-  points_band_ok pp pn pts ->
   plane_to_points pp pn pts = (d, c1, c2, arm) ->
   optimal (plane_set pp pn) S d.
 Proof.
-  intros Hu Hne Hhull Hband H.
-  destruct (plane_to_points_cases pp pn pts d c1 c2 arm Hu Hne Hband H)
+  intros Hu Hne Hhull H.
+  destruct (plane_to_points_cases pp pn pts d c1 c2 arm Hne H)
     as [(_ & -> & _)|(_ & Hsign & p & Ip & _ & _ & _ & Hle)].
   - apply optimal_zero.
   - destruct (sd_min_spec pp pn pts Hne) as (Imin & Emin & Hmin).
@@ -289,25 +267,6 @@ Proof.
     + rewrite Rabs_pos_eq in Lmin by exact P. rewrite (Rabs_pos_eq t) by lra. lra.
     + assert (tmax <= 0) by nra.
       rewrite Rabs_left1 in Lmax by assumption. rewrite (Rabs_left1 t) by lra. lra.
-Qed.
-
-(** with no assumption on the band the returned pair is still feasible, but in the opposite-sides
-    arm the two points come back in the order (point of S, plane point) *)
-Lemma plane_to_points_feasible_unordered (S : set3) (pp pn : V3R) (pts : list V3R) d c1 c2 arm :
-  dot pn pn = 1 -> pts <> [] ->
-  (forall p, In p pts -> S p) ->
-  (forall p q, In p pts -> In q pts -> forall x, segment_set p q x -> S x) ->
-  plane_to_points pp pn pts = (d, c1, c2, arm) ->
-  feasible (plane_set pp pn) S d c1 c2 \/ feasible S (plane_set pp pn) d c1 c2.
-Proof.
-  intros Hu Hne Hin Hseg H.
-  destruct (plane_to_points_arms pp pn pts d c1 c2 arm Hne H)
-    as [(_ & _ & Hls)|(_ & _ & p & Ip & -> & -> & -> & _)].
-  - right.
-    destruct (sd_min_spec pp pn pts Hne) as (Imin & _). destruct (sd_max_spec pp pn pts Hne) as (Imax & _).
-    destruct (line_segment_to_plane_feasible _ _ pp pn _ _ _ _ Hu eps6_pos Hls) as (Hs & Hpl & Hd & Hn).
-    split; [exact (Hseg _ _ Imin Imax c1 Hs)|]. split; [exact Hpl|]. split; assumption.
-  - left. apply vertex_projection_feasible; auto.
 Qed.
 
 (** *** the convex hull of the points is such a set *)
@@ -338,24 +297,24 @@ Proof.
     lra.
 Qed.
 
-Theorem plane_to_points_hull_feasible_partial (pp pn : V3R) (pts : list V3R) d c1 c2 arm :
-  dot pn pn = 1 -> pts <> [] -> points_band_ok pp pn pts ->
+Theorem plane_to_points_hull_feasible (pp pn : V3R) (pts : list V3R) d c1 c2 arm :
+  dot pn pn = 1 -> pts <> [] ->
   plane_to_points pp pn pts = (d, c1, c2, arm) ->
   feasible (plane_set pp pn) (conv_hull pts) d c1 c2.
 Proof.
-  intros Hu Hne Hband H.
-  apply (plane_to_points_feasible_partial (conv_hull pts) pp pn pts d c1 c2 arm); auto.
+  intros Hu Hne H.
+  apply (plane_to_points_feasible (conv_hull pts) pp pn pts d c1 c2 arm); auto.
   - apply conv_hull_In.
   - intros p q Ip Iq x Hx. exact (hull_segment_in pts p q x Ip Iq Hx).
 Qed.
 
-Theorem plane_to_points_hull_optimal_partial (pp pn : V3R) (pts : list V3R) d c1 c2 arm :
-  dot pn pn = 1 -> pts <> [] -> points_band_ok pp pn pts ->
+Theorem plane_to_points_hull_optimal (pp pn : V3R) (pts : list V3R) d c1 c2 arm :
+  dot pn pn = 1 -> pts <> [] ->
   plane_to_points pp pn pts = (d, c1, c2, arm) ->
   optimal (plane_set pp pn) (conv_hull pts) d.
 Proof.
-  intros Hu Hne Hband H.
-  apply (plane_to_points_optimal_partial (conv_hull pts) pp pn pts d c1 c2 arm); auto.
+  intros Hu Hne H.
+  apply (plane_to_points_optimal (conv_hull pts) pp pn pts d c1 c2 arm); auto.
   apply hull_sd_between. exact Hne.
 Qed.
 
@@ -491,32 +450,28 @@ Proof.
   - apply (affine_box2_up _ _ _ (l0 / 2) _ _ (l1 / 2)); lra.
 Qed.
 
-Definition plane_rectangle_band_ok (pp pn c a0 a1 : V3R) (l0 l1 : R) : Prop :=
-  points_band_ok pp pn (rectangle_vertices c a0 a1 l0 l1).
-
-(** feasible / optimal outside the band; no assumption on the axes is needed *)
-Theorem plane_to_rectangle_feasible_partial (pp pn c a0 a1 : V3R) (l0 l1 : R) d c1 c2 arm :
+(** feasible / optimal for every rectangle with non-negative side lengths; no assumption on the axes
+    is needed *)
+Theorem plane_to_rectangle_feasible (pp pn c a0 a1 : V3R) (l0 l1 : R) d c1 c2 arm :
   dot pn pn = 1 -> 0 <= l0 -> 0 <= l1 ->
-  plane_rectangle_band_ok pp pn c a0 a1 l0 l1 ->
   plane_to_rectangle pp pn c a0 a1 l0 l1 = (d, c1, c2, arm) ->
   feasible (plane_set pp pn) (rectangle_set c a0 a1 l0 l1) d c1 c2.
 Proof.
-  intros Hu H0 H1 Hband H.
-  apply (plane_to_points_feasible_partial _ pp pn (rectangle_vertices c a0 a1 l0 l1) d c1 c2 arm); auto.
+  intros Hu H0 H1 H.
+  apply (plane_to_points_feasible _ pp pn (rectangle_vertices c a0 a1 l0 l1) d c1 c2 arm); auto.
   - unfold rectangle_vertices; discriminate.
   - intros p Hp. apply rect_vertices_in; assumption.
   - intros p q Ip Iq x Hx.
     apply (rect_segment_in c a0 a1 l0 l1 p q x); [apply rect_vertices_in| apply rect_vertices_in|]; assumption.
 Qed.
 
-Theorem plane_to_rectangle_optimal_partial (pp pn c a0 a1 : V3R) (l0 l1 : R) d c1 c2 arm :
+Theorem plane_to_rectangle_optimal (pp pn c a0 a1 : V3R) (l0 l1 : R) d c1 c2 arm :
   dot pn pn = 1 -> 0 <= l0 -> 0 <= l1 ->
-  plane_rectangle_band_ok pp pn c a0 a1 l0 l1 ->
   plane_to_rectangle pp pn c a0 a1 l0 l1 = (d, c1, c2, arm) ->
   optimal (plane_set pp pn) (rectangle_set c a0 a1 l0 l1) d.
 Proof.
-  intros Hu H0 H1 Hband H.
-  apply (plane_to_points_optimal_partial _ pp pn (rectangle_vertices c a0 a1 l0 l1) d c1 c2 arm); auto.
+  intros Hu H0 H1 H.
+  apply (plane_to_points_optimal _ pp pn (rectangle_vertices c a0 a1 l0 l1) d c1 c2 arm); auto.
   - unfold rectangle_vertices; discriminate.
   - apply rect_sd_between; assumption.
 Qed.
@@ -572,127 +527,46 @@ Proof.
   - apply (affine_box3_up _ _ _ (vx sz / 2) _ _ (vy sz / 2) _ _ (vz sz / 2)); lra.
 Qed.
 
-Definition plane_box_band_ok (pp pn : V3R) (T : Pose R) (sz : V3R) : Prop :=
-  points_band_ok pp pn (box_vertices T sz).
-
-(** feasible / optimal outside the band; no assumption on the pose is needed *)
-Theorem plane_to_box_feasible_partial (pp pn : V3R) (T : Pose R) (sz : V3R) d c1 c2 arm :
+(** feasible / optimal for every box with non-negative sizes; no assumption on the pose is needed *)
+Theorem plane_to_box_feasible (pp pn : V3R) (T : Pose R) (sz : V3R) d c1 c2 arm :
   dot pn pn = 1 -> 0 <= vx sz -> 0 <= vy sz -> 0 <= vz sz ->
-  plane_box_band_ok pp pn T sz ->
   plane_to_box pp pn T sz = (d, c1, c2, arm) ->
   feasible (plane_set pp pn) (box_of T sz) d c1 c2.
 Proof.
-  intros Hu H0 H1 H2 Hband H.
-  apply (plane_to_points_feasible_partial _ pp pn (box_vertices T sz) d c1 c2 arm); auto.
+  intros Hu H0 H1 H2 H.
+  apply (plane_to_points_feasible _ pp pn (box_vertices T sz) d c1 c2 arm); auto.
   - unfold box_vertices; discriminate.
   - intros p Hp. apply box_vertices_in; assumption.
   - intros p q Ip Iq x Hx.
     apply (box_segment_in T sz p q x); [apply box_vertices_in|apply box_vertices_in|]; assumption.
 Qed.
 
-Theorem plane_to_box_optimal_partial (pp pn : V3R) (T : Pose R) (sz : V3R) d c1 c2 arm :
+Theorem plane_to_box_optimal (pp pn : V3R) (T : Pose R) (sz : V3R) d c1 c2 arm :
   dot pn pn = 1 -> 0 <= vx sz -> 0 <= vy sz -> 0 <= vz sz ->
-  plane_box_band_ok pp pn T sz ->
   plane_to_box pp pn T sz = (d, c1, c2, arm) ->
   optimal (plane_set pp pn) (box_of T sz) d.
 Proof.
-  intros Hu H0 H1 H2 Hband H.
-  apply (plane_to_points_optimal_partial _ pp pn (box_vertices T sz) d c1 c2 arm); auto.
+  intros Hu H0 H1 H2 H.
+  apply (plane_to_points_optimal _ pp pn (box_vertices T sz) d c1 c2 arm); auto.
   - unfold box_vertices; discriminate.
   - apply box_sd_between; assumption.
 Qed.
-(** ** inside the band *)
-Lemma plane_to_points_in_band (pp pn : V3R) (pts : list V3R) :
-  pts <> [] -> sd_min pp pn pts * sd_max pp pn pts < 0 ->
-  (let l := dot (fst (convert_segment_to_line (pt_min pp pn pts) (pt_max pp pn pts))) pn in
-   l * l < eps6 (O:=ROps)) ->
-  exists c2, plane_to_points pp pn pts = (Rabs (sd_min pp pn pts), pt_min pp pn pts, c2, 0%nat).
-Proof.
-  intros Hne Hlt Hl. unfold plane_to_points. ops_R. cbv zeta.
-  fold (sdists pp pn pts). fold (sd_min pp pn pts). fold (sd_max pp pn pts).
-  fold (pt_min pp pn pts). fold (pt_max pp pn pts).
-  rewrite (proj2 (Rltb_true _ _) Hlt).
-  unfold line_segment_to_plane, line_segment_to_plane_full.
-  destruct (convert_segment_to_line (pt_min pp pn pts) (pt_max pp pn pts)) as [sd len] eqn:Hc.
-  cbn [fst] in Hl. unfold line_to_plane_param. ops_R.
-  rewrite (proj2 (Rltb_true _ _) Hl). unfold point_to_plane. ops_R.
-  destruct (sd_min_spec pp pn pts Hne) as (_ & Emin & _).
-  rewrite (dot_comm pn), <- Emin. eexists. reflexivity.
-Qed.
 
-(** the returned first point is the extreme vertex (not on the plane) and d > 0 *)
-Theorem plane_to_points_in_band_infeasible (S : set3) (pp pn : V3R) (pts : list V3R) d c1 c2 arm :
-  pts <> [] -> sd_min pp pn pts * sd_max pp pn pts < 0 ->
-  (let l := dot (fst (convert_segment_to_line (pt_min pp pn pts) (pt_max pp pn pts))) pn in
-   l * l < eps6 (O:=ROps)) ->
-  plane_to_points pp pn pts = (d, c1, c2, arm) ->
-  ~ feasible (plane_set pp pn) S d c1 c2.
-Proof.
-  intros Hne Hlt Hl H. destruct (plane_to_points_in_band pp pn pts Hne Hlt Hl) as [c2' H'].
-  rewrite H' in H. apply pair_equal_spec in H. destruct H as [H _].
-  apply pair3_eq in H. destruct H as (_ & <- & _).
-  intros (Hp & _). unfold plane_set in Hp.
-  destruct (sd_min_spec pp pn pts Hne) as (_ & Emin & _). rewrite <- Emin in Hp.
-  rewrite Hp in Hlt. lra.
-Qed.
-
-(** a segment whose end points are strictly on opposite sides meets the plane *)
-Lemma segment_crosses_plane (pp pn s e : V3R) :
-  dot (vsub s pp) pn < 0 < dot (vsub e pp) pn -> exists x, segment_set s e x /\ plane_set pp pn x.
-Proof.
-  intros [Hs He]. set (fs := dot (vsub s pp) pn) in *. set (fe := dot (vsub e pp) pn) in *.
-  exists (vadd s (vscale (- fs / (fe - fs)) (vsub e s))). split.
-  - exists (- fs / (fe - fs)). split; [|reflexivity]. split.
-    + apply Rmult_le_pos; [lra|]. left. apply Rinv_0_lt_compat. lra.
-    + apply Rmult_le_reg_r with (fe - fs); [lra|].
-      replace (- fs / (fe - fs) * (fe - fs)) with (- fs) by (field; lra). lra.
-  - unfold plane_set. rewrite dot_sub_l, dot_add_l, dot_scale_l, dot_sub_l.
-    replace (dot e pn - dot s pn) with (fe - fs) by (unfold fe, fs; rewrite !dot_sub_l; ring).
-    replace (dot s pn) with (fs + dot pp pn) by (unfold fs; rewrite dot_sub_l; ring).
-    field. lra.
-Qed.
-
-Theorem plane_to_points_in_band_not_optimal (S : set3) (pp pn : V3R) (pts : list V3R) d c1 c2 arm :
-  pts <> [] -> sd_min pp pn pts * sd_max pp pn pts < 0 ->
-  (let l := dot (fst (convert_segment_to_line (pt_min pp pn pts) (pt_max pp pn pts))) pn in
-   l * l < eps6 (O:=ROps)) ->
-  (forall p q, In p pts -> In q pts -> forall x, segment_set p q x -> S x) ->
-  plane_to_points pp pn pts = (d, c1, c2, arm) ->
-  ~ optimal (plane_set pp pn) S d.
-Proof.
-  intros Hne Hlt Hl Hseg H. destruct (plane_to_points_in_band pp pn pts Hne Hlt Hl) as [c2' H'].
-  rewrite H' in H. apply pair_equal_spec in H. destruct H as [H _].
-  apply pair3_eq in H. destruct H as (<- & _ & _).
-  destruct (sd_min_spec pp pn pts Hne) as (Imin & Emin & Hmin).
-  destruct (sd_max_spec pp pn pts Hne) as (Imax & Emax & _).
-  pose proof (Hmin _ Imax) as Hmm. rewrite <- Emax in Hmm.
-  destruct (segment_crosses_plane pp pn (pt_min pp pn pts) (pt_max pp pn pts)) as (x & Hx & Hp).
-  { rewrite <- Emin, <- Emax. split; nra. }
-  intros Ho. specialize (Ho x x Hp (Hseg _ _ Imin Imax x Hx)). rewrite norm_sub_self in Ho.
-  assert (sd_min pp pn pts < 0) by nra.
-  rewrite Rabs_left in Ho by assumption. lra.
-Qed.
-
-(** outside the band, strictly opposite sides: the model returns a common point with distance 0 *)
+(** strictly opposite sides: the model returns a common point with distance 0 *)
 Lemma plane_to_points_crossing_result (pp pn : V3R) (pts : list V3R) :
-  dot pn pn = 1 -> pts <> [] -> points_band_ok pp pn pts ->
+  pts <> [] ->
   sd_min pp pn pts * sd_max pp pn pts < 0 ->
   exists x, plane_to_points pp pn pts = (0, x, x, 0%nat) /\ plane_set pp pn x.
 Proof.
-  intros Hu Hne Hband Hlt.
+  intros Hne Hlt.
   destruct (plane_to_points pp pn pts) as [[[d c1] c2] arm] eqn:H.
-  destruct (plane_to_points_cases pp pn pts d c1 c2 arm Hu Hne Hband H)
-    as [(-> & -> & <- & Hp & _)|(_ & Hge & _)]; [|lra].
+  destruct (plane_to_points_arm0 pp pn pts d c1 c2 arm Hne Hlt H) as (-> & -> & <- & Hp & _).
   exists c1. split; [reflexivity|exact Hp].
 Qed.
 
 (** ** plane_to_triangle again, as an instance of the general theorem (same statements as
-    [plane_to_triangle_feasible_partial] / [_optimal_partial] of DistPlane.v, which were proved by
+    [plane_to_triangle_feasible] / [plane_to_triangle_optimal] of DistPlane.v, which are proved by
     case analysis on three points) *)
-Lemma plane_triangle_band_ok_points (pp pn a b c : V3R) :
-  plane_triangle_band_ok pp pn a b c <-> points_band_ok pp pn [a; b; c].
-Proof. split; intros H; exact H. Qed.
-
 Lemma tri_vertex_in_list (a b c p : V3R) : In p [a; b; c] -> triangle_set a b c p.
 Proof.
   intros [<-|[<-|[<-|[]]]].
@@ -721,13 +595,14 @@ Proof.
   split; lra.
 Qed.
 
+
 Theorem plane_to_triangle_feasible_via_points (pp pn a b c : V3R) d c1 c2 arm :
-  dot pn pn = 1 -> plane_triangle_band_ok pp pn a b c ->
+  dot pn pn = 1 ->
   plane_to_triangle pp pn a b c = (d, c1, c2, arm) ->
   feasible (plane_set pp pn) (triangle_set a b c) d c1 c2.
 Proof.
-  intros Hu Hband H.
-  apply (plane_to_points_feasible_partial _ pp pn [a; b; c] d c1 c2 arm); auto.
+  intros Hu H.
+  apply (plane_to_points_feasible _ pp pn [a; b; c] d c1 c2 arm); auto.
   - discriminate.
   - apply tri_vertex_in_list.
   - intros p q Ip Iq x Hx.
@@ -735,44 +610,23 @@ Proof.
 Qed.
 
 Theorem plane_to_triangle_optimal_via_points (pp pn a b c : V3R) d c1 c2 arm :
-  dot pn pn = 1 -> plane_triangle_band_ok pp pn a b c ->
+  dot pn pn = 1 ->
   plane_to_triangle pp pn a b c = (d, c1, c2, arm) ->
   optimal (plane_set pp pn) (triangle_set a b c) d.
 Proof.
-  intros Hu Hband H.
-  apply (plane_to_points_optimal_partial _ pp pn [a; b; c] d c1 c2 arm); auto.
+  intros Hu H.
+  apply (plane_to_points_optimal _ pp pn [a; b; c] d c1 c2 arm); auto.
   - discriminate.
   - apply tri_sd_between.
 Qed.
 
-(** ** concrete inputs: the hypotheses are satisfiable (both arms), and inside the band the
-    results are wrong *)
-Lemma points_band_ok_intro (pp pn : V3R) (pts : list V3R) :
-  (sd_min pp pn pts * sd_max pp pn pts < 0 ->
-   let l := dot (fst (convert_segment_to_line (pt_min pp pn pts) (pt_max pp pn pts))) pn in
-   l = 0 \/ eps6 (O:=ROps) <= l * l) ->
-  points_band_ok pp pn pts.
-Proof. intros H. exact H. Qed.
-
-Lemma norm_of_sq (v : V3R) (n : R) : 0 <= n -> dot v v = n * n -> norm v = n.
-Proof. intros Hn H. unfold norm. ops_R. rewrite H. apply sqrt_square. exact Hn. Qed.
-
-Lemma seg_dir_eval (s e : V3R) (n : R) :
-  0 < n -> dot (vsub e s) (vsub e s) = n * n -> fst (convert_segment_to_line s e) = vdivs (vsub e s) n.
-Proof.
-  intros Hn H. unfold convert_segment_to_line. rewrite (norm_of_sq _ n) by (lra || exact H).
-  ops_R. rewrite (proj2 (Rltb_true 0 n) Hn). reflexivity.
-Qed.
-
-Lemma eps6_bounds : 1 / 2000000 < eps6 (O:=ROps) < 1 / 500000.
-Proof. unfold eps6. cbn [cst div ROps]. unfold Q2R. simpl. lra. Qed.
-
+(** ** concrete inputs: both arms are reachable *)
 Ltac list_veq := repeat (apply (f_equal2 (@cons V3R)); [f_equal; lra|]); reflexivity.
 Ltac eval_extremes :=
   unfold sd_min, sd_max, pt_min, pt_max, sdists; cbn [map]; vunfold;
   unfold argmin, argmax, argbest; ops_R; repeat rb_dec; cbn [nth].
 
-(** same side (or touching): the closest vertex and its projection, whatever the band *)
+(** same side (or touching): the closest vertex and its projection *)
 Lemma plane_to_points_same_side_result (pp pn : V3R) (pts : list V3R) :
   pts <> [] -> 0 <= sd_min pp pn pts * sd_max pp pn pts ->
   exists p, In p pts /\
@@ -790,40 +644,30 @@ Qed.
 (** four points, two on each side of the plane z = 0 *)
 Definition ex_pts : list V3R := [V (-1) 0 (-1); V (-1) 0 1; V 1 0 (-1); V 1 0 1].
 Lemma ex_pts_facts :
-  sd_min (V 0 0 0) (V 0 0 1) ex_pts = -1 /\ sd_max (V 0 0 0) (V 0 0 1) ex_pts = 1 /\
-  points_band_ok (V 0 0 0) (V 0 0 1) ex_pts.
-Proof.
-  assert (E : sd_min (V 0 0 0) (V 0 0 1) ex_pts = -1 /\ sd_max (V 0 0 0) (V 0 0 1) ex_pts = 1 /\
-              pt_min (V 0 0 0) (V 0 0 1) ex_pts = V (-1) 0 (-1) /\ pt_max (V 0 0 0) (V 0 0 1) ex_pts = V (-1) 0 1).
-  { unfold ex_pts. eval_extremes. repeat split; try reflexivity; lra. }
-  destruct E as (E1 & E2 & E3 & E4). split; [exact E1|]. split; [exact E2|].
-  apply points_band_ok_intro. intros _. rewrite E3, E4.
-  rewrite (seg_dir_eval _ _ 2) by (try lra; vunfold; ring).
-  cbv zeta. right. replace (dot _ _) with 1 by (vunfold; field).
-  pose proof eps6_bounds. lra.
-Qed.
+  sd_min (V 0 0 0) (V 0 0 1) ex_pts = -1 /\ sd_max (V 0 0 0) (V 0 0 1) ex_pts = 1.
+Proof. unfold ex_pts. eval_extremes. split; lra. Qed.
 
 Example plane_to_points_nonvacuous :
   let pp : V3R := V 0 0 0 in let pn : V3R := V 0 0 1 in
-  dot pn pn = 1 /\ ex_pts <> [] /\ points_band_ok pp pn ex_pts /\
+  dot pn pn = 1 /\ ex_pts <> [] /\
   sd_min pp pn ex_pts < 0 < sd_max pp pn ex_pts /\
   exists x, plane_to_points pp pn ex_pts = (0, x, x, 0%nat) /\ plane_set pp pn x /\ conv_hull ex_pts x.
 Proof.
-  cbv zeta. destruct ex_pts_facts as (E1 & E2 & Hb).
+  cbv zeta. destruct ex_pts_facts as (E1 & E2).
   assert (Hu : dot (V 0 0 1 : V3R) (V 0 0 1) = 1) by (vunfold; ring).
   assert (Hne : ex_pts <> []) by discriminate.
-  split; [exact Hu|]. split; [exact Hne|]. split; [exact Hb|]. split; [rewrite E1, E2; lra|].
-  destruct (plane_to_points_crossing_result (V 0 0 0) (V 0 0 1) ex_pts Hu Hne Hb) as (x & Hx & Hp);
+  split; [exact Hu|]. split; [exact Hne|]. split; [rewrite E1, E2; lra|].
+  destruct (plane_to_points_crossing_result (V 0 0 0) (V 0 0 1) ex_pts Hne) as (x & Hx & Hp);
     [rewrite E1, E2; lra|].
   exists x. split; [exact Hx|]. split; [exact Hp|].
-  destruct (plane_to_points_hull_feasible_partial _ _ _ _ _ _ _ Hu Hne Hb Hx) as (_ & Hh & _). exact Hh.
+  destruct (plane_to_points_hull_feasible _ _ _ _ _ _ _ Hu Hne Hx) as (_ & Hh & _). exact Hh.
 Qed.
 
-(** a rectangle standing upright on the plane z = 0 (opposite-sides arm, outside the band) *)
+(** a rectangle standing upright on the plane z = 0 (opposite-sides arm) *)
 Example plane_to_rectangle_nonvacuous :
   let pp : V3R := V 0 0 0 in let pn : V3R := V 0 0 1 in
   let c : V3R := V 0 0 0 in let a0 : V3R := V 1 0 0 in let a1 : V3R := V 0 0 1 in
-  dot pn pn = 1 /\ 0 <= 2 /\ plane_rectangle_band_ok pp pn c a0 a1 2 2 /\
+  dot pn pn = 1 /\ 0 <= 2 /\
   sd_min pp pn (rectangle_vertices c a0 a1 2 2) < 0 < sd_max pp pn (rectangle_vertices c a0 a1 2 2) /\
   exists x, plane_to_rectangle pp pn c a0 a1 2 2 = (0, x, x, 0%nat) /\ plane_set pp pn x.
 Proof.
@@ -831,17 +675,17 @@ Proof.
   assert (Hu : dot (V 0 0 1 : V3R) (V 0 0 1) = 1) by (vunfold; ring).
   assert (Hv : rectangle_vertices (V 0 0 0) (V 1 0 0) (V 0 0 1) 2 2 = ex_pts).
   { unfold rectangle_vertices, ex_pts. cbn [map fst snd]. rewrite half_R. ops_R. vunfold. list_veq. }
-  unfold plane_rectangle_band_ok, plane_to_rectangle. rewrite Hv.
-  destruct ex_pts_facts as (E1 & E2 & Hb).
-  split; [exact Hu|]. split; [lra|]. split; [exact Hb|]. split; [rewrite E1, E2; lra|].
-  apply plane_to_points_crossing_result; auto; [discriminate|rewrite E1, E2; lra].
+  unfold plane_to_rectangle. rewrite Hv.
+  destruct ex_pts_facts as (E1 & E2).
+  split; [exact Hu|]. split; [lra|]. split; [rewrite E1, E2; lra|].
+  apply plane_to_points_crossing_result; [discriminate|rewrite E1, E2; lra].
 Qed.
 
 (** a rectangle hovering 3 above the plane (closest-vertex arm): the distance is 3 *)
 Example plane_to_rectangle_nonvacuous_above :
   let pp : V3R := V 0 0 0 in let pn : V3R := V 0 0 1 in
   let c : V3R := V 0 0 3 in let a0 : V3R := V 1 0 0 in let a1 : V3R := V 0 1 0 in
-  dot pn pn = 1 /\ 0 <= 2 /\ plane_rectangle_band_ok pp pn c a0 a1 2 2 /\
+  dot pn pn = 1 /\ 0 <= 2 /\
   exists c1 c2, plane_to_rectangle pp pn c a0 a1 2 2 = (3, c1, c2, 1%nat).
 Proof.
   cbv zeta.
@@ -849,13 +693,12 @@ Proof.
   assert (Hv : rectangle_vertices (V 0 0 3) (V 1 0 0) (V 0 1 0) 2 2
                = [V (-1) (-1) 3; V (-1) 1 3; V 1 (-1) 3; V 1 1 3 : V3R]).
   { unfold rectangle_vertices. cbn [map fst snd]. rewrite half_R. ops_R. vunfold. list_veq. }
-  unfold plane_rectangle_band_ok, plane_to_rectangle. rewrite Hv.
+  unfold plane_to_rectangle. rewrite Hv.
   set (pts := [V (-1) (-1) 3; V (-1) 1 3; V 1 (-1) 3; V 1 1 3 : V3R]).
   assert (E : sd_min (V 0 0 0) (V 0 0 1) pts = 3 /\ sd_max (V 0 0 0) (V 0 0 1) pts = 3).
   { unfold pts. eval_extremes. split; lra. }
   destruct E as (E1 & E2).
-  split; [exact Hu|]. split; [lra|]. split.
-  { apply points_band_ok_intro. rewrite E1, E2. lra. }
+  split; [exact Hu|]. split; [lra|].
   destruct (plane_to_points_same_side_result (V 0 0 0) (V 0 0 1) pts) as (p & Ip & Hr & _);
     [discriminate|rewrite E1, E2; lra|].
   assert (Hf : dot (vsub p (V 0 0 0)) (V 0 0 1) = 3).
@@ -868,7 +711,6 @@ Example plane_to_box_nonvacuous :
   let pp : V3R := V 0 0 0 in let pn : V3R := V 0 0 1 in
   let T : Pose R := P ident (V 0 0 0) in let sz : V3R := V 2 2 2 in
   dot pn pn = 1 /\ is_rotation (rot T) /\ 0 <= vx sz /\ 0 <= vy sz /\ 0 <= vz sz /\
-  plane_box_band_ok pp pn T sz /\
   sd_min pp pn (box_vertices T sz) < 0 < sd_max pp pn (box_vertices T sz) /\
   exists x, plane_to_box pp pn T sz = (0, x, x, 0%nat) /\ plane_set pp pn x /\ box_of T sz x.
 Proof.
@@ -883,146 +725,13 @@ Proof.
   assert (S2 : 0 <= vz sz) by (cbn; lra).
   assert (Hne : box_vertices T sz <> []) by (unfold box_vertices; discriminate).
   assert (E : sd_min (V 0 0 0) (V 0 0 1) (box_vertices T sz) = -1 /\
-              sd_max (V 0 0 0) (V 0 0 1) (box_vertices T sz) = 1 /\
-              pt_min (V 0 0 0) (V 0 0 1) (box_vertices T sz) = V (-1) (-1) (-1) /\
-              pt_max (V 0 0 0) (V 0 0 1) (box_vertices T sz) = V (-1) (-1) 1).
-  { unfold T, sz. rewrite Hv. eval_extremes. repeat split; try reflexivity; lra. }
-  destruct E as (E1 & E2 & E3 & E4).
-  assert (Hb : plane_box_band_ok (V 0 0 0) (V 0 0 1) T sz).
-  { apply points_band_ok_intro. intros _. rewrite E3, E4.
-    rewrite (seg_dir_eval _ _ 2) by (try lra; vunfold; ring).
-    cbv zeta. right. replace (dot _ _) with 1 by (vunfold; field).
-    pose proof eps6_bounds. lra. }
+              sd_max (V 0 0 0) (V 0 0 1) (box_vertices T sz) = 1).
+  { unfold T, sz. rewrite Hv. eval_extremes. split; lra. }
+  destruct E as (E1 & E2).
   split; [exact Hu|]. split; [exact rotation_ident|]. split; [exact S0|]. split; [exact S1|].
-  split; [exact S2|]. split; [exact Hb|]. split; [rewrite E1, E2; lra|].
-  destruct (plane_to_points_crossing_result (V 0 0 0) (V 0 0 1) (box_vertices T sz) Hu Hne Hb) as (x & Hx & Hp);
+  split; [exact S2|]. split; [rewrite E1, E2; lra|].
+  destruct (plane_to_points_crossing_result (V 0 0 0) (V 0 0 1) (box_vertices T sz) Hne) as (x & Hx & Hp);
     [rewrite E1, E2; lra|].
   exists x. split; [exact Hx|]. split; [exact Hp|].
-  destruct (plane_to_box_feasible_partial _ _ _ _ _ _ _ _ Hu S0 S1 S2 Hb Hx) as (_ & Hh & _). exact Hh.
-Qed.
-
-(** *** inside the band: a plane tilted by 2e-4 rad about the y axis, through the centre of
-    the rectangle [-1,1]^2 x {0} / the thin box [-C,C] x [-1,1] x [-S,S].  S = sin, C = cos of the
-    tilt angle, a Pythagorean pair. *)
-Definition wS : R := 20000 / 100000001.
-Definition wC : R := 99999999 / 100000001.
-Definition w_pp : V3R := V 0 0 0.
-Definition w_pn : V3R := V wS 0 wC.
-Lemma w_pn_unit : dot w_pn w_pn = 1.
-Proof. unfold w_pn, wS, wC. vunfold. field. Qed.
-
-Definition wr_pts : list V3R := [V (-1) (-1) 0; V (-1) 1 0; V 1 (-1) 0; V 1 1 0].
-Lemma wr_vertices : rectangle_vertices (V 0 0 0) (V 1 0 0) (V 0 1 0) 2 2 = wr_pts.
-Proof. unfold rectangle_vertices, wr_pts. cbn [map fst snd]. rewrite half_R. ops_R. vunfold. list_veq. Qed.
-
-Lemma wr_in_band :
-  wr_pts <> [] /\ sd_min w_pp w_pn wr_pts * sd_max w_pp w_pn wr_pts < 0 /\
-  (let l := dot (fst (convert_segment_to_line (pt_min w_pp w_pn wr_pts) (pt_max w_pp w_pn wr_pts))) w_pn in
-   l * l < eps6 (O:=ROps)).
-Proof.
-  assert (E : sd_min w_pp w_pn wr_pts = - wS /\ sd_max w_pp w_pn wr_pts = wS /\
-              pt_min w_pp w_pn wr_pts = V (-1) (-1) 0 /\ pt_max w_pp w_pn wr_pts = V 1 (-1) 0).
-  { unfold wr_pts, w_pp, w_pn, wS, wC. eval_extremes. repeat split; try reflexivity; lra. }
-  destruct E as (E1 & E2 & E3 & E4).
-  split; [discriminate|]. split; [rewrite E1, E2; unfold wS; lra|].
-  rewrite E3, E4. rewrite (seg_dir_eval _ _ 2) by (try lra; vunfold; ring).
-  cbv zeta. replace (dot _ _) with wS by (unfold w_pn; vunfold; field).
-  pose proof eps6_bounds. unfold wS. lra.
-Qed.
-
-Theorem plane_to_rectangle_feasible_refuted :
-  exists (pp pn c a0 a1 : V3R) (l0 l1 d : R) (c1 c2 : V3R) (arm : nat),
-    dot pn pn = 1 /\ dot a0 a0 = 1 /\ dot a1 a1 = 1 /\ dot a0 a1 = 0 /\ 0 <= l0 /\ 0 <= l1 /\
-    plane_to_rectangle pp pn c a0 a1 l0 l1 = (d, c1, c2, arm) /\
-    ~ feasible (plane_set pp pn) (rectangle_set c a0 a1 l0 l1) d c1 c2.
-Proof.
-  destruct (plane_to_rectangle w_pp w_pn (V 0 0 0) (V 1 0 0) (V 0 1 0) 2 2) as [[[d c1] c2] arm] eqn:H.
-  exists w_pp, w_pn, (V 0 0 0), (V 1 0 0), (V 0 1 0), 2, 2, d, c1, c2, arm.
-  split; [exact w_pn_unit|]. split; [vunfold; ring|]. split; [vunfold; ring|]. split; [vunfold; ring|].
-  split; [lra|]. split; [lra|]. split; [exact H|].
-  unfold plane_to_rectangle in H. rewrite wr_vertices in H.
-  destruct wr_in_band as (Hne & Hlt & Hl).
-  exact (plane_to_points_in_band_infeasible _ _ _ _ _ _ _ _ Hne Hlt Hl H).
-Qed.
-
-Theorem plane_to_rectangle_optimal_refuted :
-  exists (pp pn c a0 a1 : V3R) (l0 l1 d : R) (c1 c2 : V3R) (arm : nat),
-    dot pn pn = 1 /\ dot a0 a0 = 1 /\ dot a1 a1 = 1 /\ dot a0 a1 = 0 /\ 0 <= l0 /\ 0 <= l1 /\
-    plane_to_rectangle pp pn c a0 a1 l0 l1 = (d, c1, c2, arm) /\
-    ~ optimal (plane_set pp pn) (rectangle_set c a0 a1 l0 l1) d.
-Proof.
-  destruct (plane_to_rectangle w_pp w_pn (V 0 0 0) (V 1 0 0) (V 0 1 0) 2 2) as [[[d c1] c2] arm] eqn:H.
-  exists w_pp, w_pn, (V 0 0 0), (V 1 0 0), (V 0 1 0), 2, 2, d, c1, c2, arm.
-  split; [exact w_pn_unit|]. split; [vunfold; ring|]. split; [vunfold; ring|]. split; [vunfold; ring|].
-  split; [lra|]. split; [lra|]. split; [exact H|].
-  unfold plane_to_rectangle in H.
-  destruct wr_in_band as (Hne & Hlt & Hl).
-  apply (plane_to_points_in_band_not_optimal _ w_pp w_pn wr_pts d c1 c2 arm Hne Hlt Hl);
-    [|rewrite <- wr_vertices; exact H].
-  rewrite <- wr_vertices. intros p q Ip Iq x Hx.
-  apply (rect_segment_in _ _ _ _ _ p q x); [apply rect_vertices_in; auto; lra|apply rect_vertices_in; auto; lra|exact Hx].
-Qed.
-
-(** the thin box *)
-Definition wb_T : Pose R := P ident (V 0 0 0).
-Definition wb_sz : V3R := V (2 * wC) 2 (2 * wS).
-Definition wb_pts : list V3R :=
-  [V (- wC) (-1) (- wS); V (- wC) (-1) wS; V (- wC) 1 (- wS); V (- wC) 1 wS;
-   V wC (-1) (- wS); V wC (-1) wS; V wC 1 (- wS); V wC 1 wS].
-Lemma wb_vertices : box_vertices wb_T wb_sz = wb_pts.
-Proof.
-  unfold box_vertices, wb_pts, wb_T, wb_sz, wS, wC. cbn [map]. rewrite half_R. ops_R. vunfold. list_veq.
-Qed.
-
-Lemma wb_in_band :
-  wb_pts <> [] /\ sd_min w_pp w_pn wb_pts * sd_max w_pp w_pn wb_pts < 0 /\
-  (let l := dot (fst (convert_segment_to_line (pt_min w_pp w_pn wb_pts) (pt_max w_pp w_pn wb_pts))) w_pn in
-   l * l < eps6 (O:=ROps)).
-Proof.
-  assert (E : sd_min w_pp w_pn wb_pts = - (2 * wC * wS) /\ sd_max w_pp w_pn wb_pts = 2 * wC * wS /\
-              pt_min w_pp w_pn wb_pts = V (- wC) (-1) (- wS) /\ pt_max w_pp w_pn wb_pts = V wC (-1) wS).
-  { unfold wb_pts, w_pp, w_pn, wS, wC. eval_extremes. repeat split; try reflexivity; lra. }
-  destruct E as (E1 & E2 & E3 & E4).
-  split; [discriminate|]. split; [rewrite E1, E2; unfold wS, wC; lra|].
-  rewrite E3, E4. rewrite (seg_dir_eval _ _ 2) by (try lra; unfold wS, wC; vunfold; field).
-  cbv zeta. replace (dot _ _) with (2 * wC * wS) by (unfold w_pn; vunfold; field).
-  pose proof eps6_bounds. unfold wS, wC. lra.
-Qed.
-
-Theorem plane_to_box_feasible_refuted :
-  exists (pp pn : V3R) (T : Pose R) (sz : V3R) (d : R) (c1 c2 : V3R) (arm : nat),
-    dot pn pn = 1 /\ is_rotation (rot T) /\ 0 < vx sz /\ 0 < vy sz /\ 0 < vz sz /\
-    plane_to_box pp pn T sz = (d, c1, c2, arm) /\
-    ~ feasible (plane_set pp pn) (box_of T sz) d c1 c2.
-Proof.
-  destruct (plane_to_box w_pp w_pn wb_T wb_sz) as [[[d c1] c2] arm] eqn:H.
-  exists w_pp, w_pn, wb_T, wb_sz, d, c1, c2, arm.
-  split; [exact w_pn_unit|]. split; [exact rotation_ident|].
-  split; [unfold wb_sz, wC; cbn [vx]; lra|]. split; [cbn; lra|]. split; [unfold wb_sz, wS; cbn [vz]; lra|].
-  split; [exact H|].
-  unfold plane_to_box in H. rewrite wb_vertices in H.
-  destruct wb_in_band as (Hne & Hlt & Hl).
-  exact (plane_to_points_in_band_infeasible _ _ _ _ _ _ _ _ Hne Hlt Hl H).
-Qed.
-
-Theorem plane_to_box_optimal_refuted :
-  exists (pp pn : V3R) (T : Pose R) (sz : V3R) (d : R) (c1 c2 : V3R) (arm : nat),
-    dot pn pn = 1 /\ is_rotation (rot T) /\ 0 < vx sz /\ 0 < vy sz /\ 0 < vz sz /\
-    plane_to_box pp pn T sz = (d, c1, c2, arm) /\
-    ~ optimal (plane_set pp pn) (box_of T sz) d.
-Proof.
-  destruct (plane_to_box w_pp w_pn wb_T wb_sz) as [[[d c1] c2] arm] eqn:H.
-  exists w_pp, w_pn, wb_T, wb_sz, d, c1, c2, arm.
-  split; [exact w_pn_unit|]. split; [exact rotation_ident|].
-  split; [unfold wb_sz, wC; cbn [vx]; lra|]. split; [cbn; lra|]. split; [unfold wb_sz, wS; cbn [vz]; lra|].
-  split; [exact H|].
-  unfold plane_to_box in H.
-  destruct wb_in_band as (Hne & Hlt & Hl).
-  apply (plane_to_points_in_band_not_optimal _ w_pp w_pn wb_pts d c1 c2 arm Hne Hlt Hl);
-    [|rewrite <- wb_vertices; exact H].
-  assert (S0 : 0 <= vx wb_sz) by (unfold wb_sz, wC; cbn [vx]; lra).
-  assert (S1 : 0 <= vy wb_sz) by (cbn; lra).
-  assert (S2 : 0 <= vz wb_sz) by (unfold wb_sz, wS; cbn [vz]; lra).
-  rewrite <- wb_vertices. intros p q Ip Iq x Hx.
-  apply (box_segment_in _ _ p q x); [apply box_vertices_in; auto|apply box_vertices_in; auto|exact Hx].
+  destruct (plane_to_box_feasible _ _ _ _ _ _ _ _ Hu S0 S1 S2 Hx) as (_ & Hh & _). exact Hh.
 Qed.
